@@ -704,8 +704,10 @@ theorem inv_setBarrier {q : List Nat} {s s' : St} (hinv : Inv s) (h : setBarrier
   split at h
   · cases h
   · split at h
-    · cases h
-    · exact inv_barrierLoop (inv_addColumn hinv) h
+    · cases h; exact hinv
+    · split at h
+      · cases h
+      · exact inv_barrierLoop (inv_addColumn hinv) h
 
 
 /-- As `range_gate`, for a range over quantum and classical bits. -/
@@ -1115,12 +1117,30 @@ theorem resetWrites_nodup (q n : Nat) : ((resetWrites q n).map (·.1)).Nodup := 
 
 theorem inv_resetAll {nq : Nat} {s s' : St} (hinv : Inv s) (h : opLatex nq .resetAll s = .ok s') : Inv s' := by
   simp only [opLatex] at h
-  split at h
-  · cases h
-  · rename_i n
+  cases nq with
+  | zero =>
+    -- no qubits: the range of all qubits is empty, nothing is reserved, drawn or closed
+    obtain ⟨s1, h1, h⟩ := Res.bind_eq_ok.mp h
+    obtain ⟨s2, h2, h3⟩ := Res.bind_eq_ok.mp h
+    have e1 : s1 = s := by
+      unfold startRangeOp at h1
+      obtain ⟨bits, hb, h1⟩ := Res.bind_eq_ok.mp h1
+      have := getBitIndices_none hb
+      subst this
+      simpa using h1.symm
+    subst e1
+    have e2 : s2 = s1 := by simpa [resetLoop] using h2.symm
+    subst e2
+    have e3 : s' = s2 := by
+      unfold endRangeOp at h3
+      rw [hinv.noRange] at h3
+      simpa using h3.symm
+    subst e3
+    exact hinv
+  | succ n =>
     obtain ⟨sx, hx, _⟩ := Res.bind_eq_ok.mp h
     have hb := getBitIndices_none_ok_of_start hx
-    have h' : (startRangeOp [0, n] none s >>== fun s1 =>
+    have h' : (startRangeOp (List.range (n+1)) none s >>== fun s1 =>
         (fun s1 => resetLoop 0 (n+1) s1) s1 >>== endRangeOp) = .ok s' := by
       simpa [bind_assoc] using h
     obtain ⟨s0, _, hw, hr, _, hfree⟩ := range_op (ws := resetWrites 0 (n+1)) hb (by simp) (ready_top hinv)
